@@ -6,7 +6,7 @@ from typing import Dict, List, Optional, Set
 
 from ..ctx import Ctx
 from ..model import AnalysisError, Mod, norm, walk_scope, calls_in
-from .opcodes import guards_of
+from .opcodes import guards_of, nguards
 from ..util import equivalent
 
 
@@ -360,7 +360,12 @@ def reg5(ctx: Ctx) -> None:
         elif not stores:
             ctx.R.fail("REG-5", cm, it, f"option `{o}` is read but Frame.{o} is never set from it: matching frames do not get {o}=True", construct=f"effect of {o}")
         else:
-            ctx.R.undecided("REG-5", f"store to {fparam}.{o} present but not in a recognised `if {o}:` shape")
+            inverted = [s_ for s_ in stores if (norm(s_.value) == "True" and (o, False) in nguards(cm, s_, it))
+                        or (norm(s_.value) == "False" and (o, True) in nguards(cm, s_, it))]
+            if inverted:
+                ctx.R.fail("REG-5", cm, inverted[0], f"option `{o}` has the opposite effect: `{norm(inverted[0])}` under `{'not ' if norm(inverted[0].value) == 'True' else ''}{o}`", construct=f"effect of {o} inverted")
+            else:
+                ctx.R.undecided("REG-5", f"store to {fparam}.{o} present but not in a recognised `if {o}:` shape")
     # elaborate: its result must be returned whenever it is not None
     if "elaborate" in reads:
         ecalls = [c for c in ast.walk(it) if isinstance(c, ast.Call) and norm(c.func) == "elaborate"]
